@@ -16,6 +16,7 @@ package liveness
 
 import (
 	"context"
+	"encoding/hex"
 	"errors"
 	"fmt"
 	"net"
@@ -167,7 +168,14 @@ func c18DurField(s string) (string, time.Duration, bool) {
 	return strconv.FormatInt(int64(d), 10), d, true
 }
 
+// c18TextLines: the configured lifetimes go to the model as TEXT (`cachet|<hex>|cap|<hex>|cap|…`), to be parsed by
+// the model's own time.ParseDuration (CJ.DurationText); set by TestVerifC18Text and by the replay of a `cachet|` line.
+var c18TextLines bool
+
 func (c c18Conf) line() string {
+	if c18TextLines {
+		return fmt.Sprintf("cachet|%s|%d|%s|%d|", vlib.Hex([]byte(c.durL)), c.capL, vlib.Hex([]byte(c.durN)), c.capN)
+	}
 	dl, _, _ := c18DurField(c.durL)
 	dn, _, _ := c18DurField(c.durN)
 	return fmt.Sprintf("cache|%s|%d|%s|%d|", dl, c.capL, dn, c.capN)
@@ -612,7 +620,7 @@ func c18Build(conf c18Conf, syms []c18Sym, r *vlib.Rand) []c18Op {
 		}
 		t := cur + c18Jitter
 		if s.kind == 'n' {
-			if lt, ok := conf.lifetime(s.live); ok && lt > 0 {
+			if lt, ok := conf.lifetime(s.live); ok && lt > 0 && lt <= 1000*c18Hour && lt%c18Sec == 0 { // (a lifetime of centuries has no reachable boundary; operation times stay whole seconds)
 				back := s.back
 				for j := len(ops) - 1; j >= 0; j-- {
 					if ops[j].kind == 'q' && ops[j].addr == c18Addrs[s.addr] {
@@ -1153,7 +1161,8 @@ func c18Replay(t *testing.T, out *vlib.Out, path string) {
 			c18Stress(out, vlib.NewRand("C18"), 12)
 			continue
 		}
-		if !strings.HasPrefix(line, "cache|") {
+		c18TextLines = strings.HasPrefix(line, "cachet|")
+		if !strings.HasPrefix(line, "cache|") && !c18TextLines {
 			continue
 		}
 		f := strings.Split(line, "|")
@@ -1161,6 +1170,17 @@ func c18Replay(t *testing.T, out *vlib.Out, path string) {
 			t.Fatalf("bad replay line %q", line)
 		}
 		dur := func(s string) string {
+			if c18TextLines {
+				// the lifetime as written: hex of the configured text
+				if s == "-" {
+					return ""
+				}
+				b, err := hex.DecodeString(s)
+				if err != nil {
+					t.Fatalf("bad lifetime text %q", s)
+				}
+				return string(b)
+			}
 			switch s {
 			case "-":
 				return ""
